@@ -34,15 +34,8 @@ NAMES = pe.NAMES + [pe.DRIVER, "com.ex", "com.exx"]
 
 
 def load_known():
-    """known-findings.json is owned by the coordinator; until the entries proposed in notes/C06.findings.json are merged
-    there, they are read from the notes file"""
-    known = {k["id"]: k for k in vlib.load_known("C06")}
-    p = os.path.join(vlib.VERIF, "notes", "C06.findings.json")
-    if os.path.exists(p):
-        for k in json.load(open(p)):
-            if k.get("property") == "C06" and k.get("status") == "known":
-                known.setdefault(k["id"], k)
-    return known
+    """only known-findings.json counts (entries with status "known"; fixed ones are violations again if they show)"""
+    return {k["id"]: k for k in vlib.load_known("C06")}
 
 
 # --------------------------------------------------------------------------- decision level
@@ -565,5 +558,4 @@ def run(ctx):
         "end to end every configuration ends with two mandatory control rules (GetId to the bus driver may be sent, method returns from the bus driver may be received) needed by the ordering barrier; the decision-level leg has no such restriction",
         "decision-level leg takes the receiver == NULL / sender == NULL paths (header comparison); registry look-ups (queued owners, prefixes) are exercised end to end",
         "RequestName with flags 0 only; min_fds/max_fds text -> integer (strtol) is not modelled; user=/group= connection rules are not part of this property",
-        "known-finding entries are read from notes/C06.findings.json until merged into known-findings.json",
     ]
